@@ -290,6 +290,20 @@ func (sc *serverConn) checkFrameWithStream(fr *FrameHeader) error {
 	return nil
 }
 
+// forward hands a frame to the stream loop. It gives up once that loop has
+// stopped, which it does on its own after a connection error: a bare send would
+// then block for good as soon as the channel's buffer filled, and ServeConn
+// would never return for a peer that keeps sending.
+func (sc *serverConn) forward(fr *FrameHeader) bool {
+	select {
+	case sc.reader <- fr:
+		return true
+	case <-sc.writeStop:
+		ReleaseFrameHeader(fr)
+		return false
+	}
+}
+
 func (sc *serverConn) readLoop() (err error) {
 	defer func() {
 		if err := recover(); err != nil {
@@ -363,7 +377,10 @@ func (sc *serverConn) readLoop() (err error) {
 				return errConnClosed
 			}
 
-			sc.reader <- fr
+			if !sc.forward(fr) {
+				return errConnClosed
+			}
+
 			continue
 		}
 
@@ -375,7 +392,10 @@ func (sc *serverConn) readLoop() (err error) {
 				sc.handleSettings(st)
 				// forward to handleStreams so the INITIAL_WINDOW_SIZE delta is
 				// applied to open streams in frame order.
-				sc.reader <- fr
+				if !sc.forward(fr) {
+					return errConnClosed
+				}
+
 				continue
 			}
 		case FrameWindowUpdate:
@@ -387,7 +407,10 @@ func (sc *serverConn) readLoop() (err error) {
 			}
 
 			// the actual window bookkeeping happens in handleStreams.
-			sc.reader <- fr
+			if !sc.forward(fr) {
+				return errConnClosed
+			}
+
 			continue
 		case FramePing:
 			ping := fr.Body().(*Ping)
